@@ -387,6 +387,11 @@ KEEP_OPS = {   # name -> (callable on a, axes whose attrs must survive or None)
     "reshape": (lambda a: a.reshape("y", "x", "k"), None), "reshape_group": (lambda a: a.reshape("y,x"), None),
     "broadcast": (lambda a: a.broadcast([Axis(np.array([1, 2]), "k")] + list(a.axes)), None),
     "reindex": (lambda a: a.reindex_axis([10, 15, 30], axis="x"), ["x", "y"]), "reindex_y": (lambda a: a.reindex_axis(["a", "z"], axis="y"), ["x", "y"]),
+    # new labels of a type the axis' own type cannot hold (fractions on an integer axis), some of them missing: the axis is widened, its metadata stays
+    "reindex_frac": (lambda a: a.reindex_axis([10, 12.5, 30], axis="x"), ["x", "y"]),
+    "reindex_frac_arr": (lambda a: a.reindex_axis(np.array([12.5, 20.]), axis=0), ["x", "y"]),
+    "reindex_frac_left": (lambda a: a.reindex_axis(np.array([12.5, 30.]), axis="x", method="left"), ["x", "y"]),
+    "reindex_frac_axisobj": (lambda a: a.reindex_axis(_other_axis([10.5, 30.])), ["x", "y"]),
     # the target given as an Axis object that carries OTHER metadata (also what align() passes): the array's own axis metadata survives
     "reindex_axisobj": (lambda a: a.reindex_axis(_other_axis([10, 15, 30])), ["x", "y"]),
     "reindex_axisobj_present": (lambda a: a.reindex_axis(_other_axis([20, 10])), ["x", "y"]),
